@@ -98,6 +98,7 @@ def run_scenario(scenario, seed, monitors=(), trace=False, settle=None, worker_h
                 body = json.dumps({"data": ex["input"], "context": {"StateMachine": {"Id": sm},
                                                                      "Execution": {"Name": ex["name"]}}})
                 mid = None if via == "raw-noid" else ex.get("mid", "raw-%d-%s" % (i, ex["name"]))
+                sim.count("raw-start-event")
                 sim.broker.basic_publish(res._rawch.rec, "", "asl_workflow_events" + sfx, body.encode(),
                                          Props(content_type="application/json", message_id=mid, delivery_mode=2))
                 parts = sm.split(":")
